@@ -117,6 +117,9 @@ def discharge(ob: Obligation, use_cvc5=True, z3_timeout=None, cvc5_timeout=None,
         if not ob.expect_sat and retry and _small_universe_refutation(ob):
             ob.time_s = time.time() - t0
             return ob
+        if ob.expect_sat and _small_universe_witness(ob):
+            ob.time_s = time.time() - t0
+            return ob
         if use_cvc5:
             verdict, out = _run_cvc5(ob.smt2(), cvc5_timeout or CVC5_TIMEOUT_MS)
             want_good = "sat" if ob.expect_sat else "unsat"
@@ -177,6 +180,29 @@ def _small_universe_refutation(ob: Obligation, sizes=(2, 3), timeout_ms=4000) ->
             ob.model = s.model()
             ob.model_text = _model_text(ob.model)
             ob.detail += f" | counter-model found with {k} elements per uninterpreted sort"
+            return True
+    return False
+
+
+def _small_universe_witness(ob: Obligation, sizes=(1, 2, 3), timeout_ms=4000) -> bool:
+    """Cover obligations (the precondition must be satisfiable): a model over a small finite universe is a model."""
+    sorts = _uninterpreted_sorts()
+    if not sorts:
+        return False
+    for k in sizes:
+        s = z3.Solver()
+        s.set("timeout", timeout_ms)
+        for c in ob.pc:
+            s.add(c)
+        s.add(ob.goal)
+        for srt in sorts:
+            elems = [z3.Const(f"w{k}_{srt.name()}_{i}", srt) for i in range(k)]
+            x = z3.Const(f"wx_{srt.name()}", srt)
+            s.add(z3.ForAll([x], z3.Or([x == e for e in elems])))
+        if s.check() == z3.sat:
+            ob.status = "discharged"
+            ob.backend = f"z3 (universe of {k} per id sort)"
+            ob.detail += f" | satisfiable with {k} elements per uninterpreted sort"
             return True
     return False
 
